@@ -24,7 +24,10 @@ def _check_read(t: Tally, RPD, buf: bytes, bits: str, p: int, n: int):
         r = RPD(buf)
         r.pos = p
         try:
-            got = r.read_as_int(n) if kind == "int" else r.read_as_bytes(n)
+            if (p + n) % 2:   # the documented parameter name, passed by keyword
+                got = r.read_as_int(nbits=n) if kind == "int" else r.read_as_bytes(nbits=n)
+            else:
+                got = r.read_as_int(n) if kind == "int" else r.read_as_bytes(n)
         except Exception as e:  # noqa: BLE001
             got = f"raised:{type(e).__name__}"
         t.evals += 1
